@@ -378,6 +378,70 @@ class LogWorld:
         return esc, sock
 
 
+def eventlet_sendfile_records(ctx):
+    """The eventlet worker's replacement of socket.sendfile returns the number that Response.sendfile() adds to resp.sent - the
+    number the access record reports.  A real async worker wrapper serves file-wrapper responses on a socket whose sendfile is
+    gunicorn.workers.geventlet._eventlet_socket_sendfile and whose send() is short (a slow client): the record's byte count
+    must be what left the socket after the head.  Oracle only."""
+    try:
+        from gunicorn.workers import geventlet as ge
+    except Exception as e:
+        ctx.extra["eventlet_sendfile_records"] = "not checked: %r" % (e,)
+        return
+    fn = getattr(ge, "_eventlet_socket_sendfile", None)
+    if fn is None:
+        ctx.extra["eventlet_sendfile_records"] = "gunicorn.workers.geventlet has no _eventlet_socket_sendfile"
+        return
+
+    class GreenLikeSock(L.TSock):
+        def __init__(self, trace, segs, plan):
+            L.TSock.__init__(self, trace, segs=segs)
+            self.plan = list(plan)
+            self.body_out = 0
+
+        def send(self, data):
+            step = self.plan.pop(0) if self.plan else None
+            n = len(data) if step is None else max(1, min(len(data), step))
+            self.wire += bytes(data[:n])
+            self.body_out += n
+            return n
+
+        def sendfile(self, file, offset=0, count=None):
+            return fn(self, file, offset, count)
+    nbad = 0
+    content = bytes((i * 7 + i // 251) % 256 for i in range(30000))
+    LW = LogWorld("async", "%(s)s %(b)s %(B)s")
+    try:
+        for fsize in (5, 8192, 20000, 30000):
+            for clen in (None, fsize, max(1, fsize - 3)):
+                for plan in ([], [7, 100, None, 1, 5000, 3], [4000] * 12, [1, 1, 1, 8191]):
+                    W = LW.W
+                    acts = [("start", 200, clen), ("return",)]
+                    W.begin(apps=[{"acts": acts, "file": (content[:fsize], 0, 8192, True)}])
+                    LW.calls = []
+                    LW.access_errors = []
+                    sock = GreenLikeSock(W.trace, [b"GET /f HTTP/1.1\r\nHost: h\r\nConnection: close\r\n\r\n"], plan)
+                    W.serve(sock, ("10.0.0.1", 4321))
+                    sock.dispose()
+                    ctx.count_case(("eventlet-sent", fsize, clen, len(plan)), True)
+                    ctx.hist("eventlet_sendfile_records", "Content-Length" if clen is not None else "chunked")
+                    if len(LW.calls) != 1:
+                        continue
+                    (resp, req, env), lines, _b = LW.calls[0]
+                    want = sock.body_out
+                    if want and getattr(resp, "sent", None) != want:
+                        nbad += 1
+                        if nbad <= 2:
+                            ctx.violation("eventlet worker's sendfile replacement: a file of %d bytes (Content-Length %r) went out in short sends %r: "
+                                          "%d body bytes left the socket, the access record reports %r (record %r)"
+                                          % (fsize, clen, plan, want, getattr(resp, "sent", None), lines[:1]),
+                                          {"kind": "eventlet-sent", "fsize": fsize, "clen": clen, "plan": plan})
+    finally:
+        LW.close()
+        L.remove_patches()
+    ctx.log("eventlet sendfile replacement vs access record: %d failures" % nbad)
+
+
 def b64(b):
     return base64.b64encode(b).decode("ascii")
 
@@ -475,6 +539,7 @@ def run(ctx):
         ctx.log("CORRESPONDENCE (worker side): %d differ, e.g. %r" % (len(bad), base.printable(base.dec(cases[i][2]))))
     # ---------------- record side
     lcases, lfail, nlines = record_side(ctx, quick)
+    eventlet_sendfile_records(ctx)
     ctx.log("record side: %d records, oracle failures: %d" % (nlines, lfail))
     bad2 = ctx.correspond("line", HEADER_LOG, lcases, shard=120)
     if bad2:
@@ -599,6 +664,18 @@ def search(ctx):
 
 
 def replay(rep):
+    if rep.get("kind") == "eventlet-sent":
+        class C:
+            extra = {}
+            def __init__(self): self.v = []
+            def count_case(self, *a, **k): pass
+            def hist(self, *a, **k): pass
+            def log(self, *a): print(*a)
+            def violation(self, what, rep): self.v.append(what)
+        c = C()
+        eventlet_sendfile_records(c)
+        print("failures:", c.v)
+        return 1 if c.v else 0
     if rep.get("kind") == "record":
         LW = LogWorld(rep["worker"], rep["fmt"], rep.get("loglevel", "info"))
         try:
